@@ -131,8 +131,13 @@ def loop_cut(eng: Any, s: Any, st: State, ctx: Ctx, it: Any = None):
     if spec is None or spec.invariant is None:
         raise Unsupported("loop over an abstract iterable / while loop without an invariant in the contract", s)
     is_for = isinstance(s, ast.For)
+    elem_sort = None
     if is_for:
-        if not (isinstance(it, Ref) and st.obj(it).kind == "absiter"):
+        if isinstance(it, Ref) and st.obj(it).kind == "absiter":
+            elem_sort = st.obj(it).get("elem")
+        elif isinstance(it, Ref) and st.obj(it).kind == "list" and spec.elem is not None:
+            elem_sort = spec.elem      # a list with an opaque segment: arbitrarily many elements of the declared sort
+        else:
             raise Unsupported("for-loop over a value that is neither a concrete sequence nor an abstract iterable", s)
     # establish
     env0 = _locals_env(eng, st)
@@ -180,8 +185,7 @@ def loop_cut(eng: Any, s: Any, st: State, ctx: Ctx, it: Any = None):
     st_h = st_h.emit(("$yields", f"loop@L{s.lineno}"))
     # one more iteration
     if is_for:
-        o = st_h.obj(it)
-        st_i, elem, inv = eng.make(st_h, o.get("elem"), f"item@L{s.lineno}")
+        st_i, elem, inv = eng.make(st_h, elem_sort, f"item@L{s.lineno}")
         st_i = st_i.assume(*inv)
         starts = list(eng.assign(s.target, elem, st_i.with_note(f"L{s.lineno}:iteration"), ctx))
     else:
@@ -211,8 +215,11 @@ def loop_cut(eng: Any, s: Any, st: State, ctx: Ctx, it: Any = None):
                 for lab, g in inv1.items():
                     eng.oblige(st1, f"loop@L{s.lineno}.preserve.{lab}", "invariant", g, s)
                 if spec.after_each is not None:
+                    env2 = _locals_env(eng, st1)       # `e.old` = the state at the start of this iteration
+                    object.__setattr__(env2, "_old_heap", st_s.heap)
+                    object.__setattr__(env2, "_old_binds", {k: v for k, v in st_s.locals.items() if not k.startswith("$")})
                     try:
-                        ae = eng.eval_clause_dict(spec.after_each, env1)
+                        ae = eng.eval_clause_dict(spec.after_each, env2)
                     except ClauseError as ex:
                         ae = {f"clause-evaluable({ex})": False}
                     for lab, g in ae.items():
